@@ -423,6 +423,8 @@ class Interp:
             if it.kind == "values":
                 return [v for _, v in ents]
             return [(k, v) for k, v in ents]
+        if type(it).__name__ == "IterVal":
+            return it.rest()
         if isinstance(it, GenVal):
             return it.items
         if isinstance(it, Obj):
